@@ -121,6 +121,22 @@ Section Wrap.
       now rewrite cjoin_csplit.
   Qed.
 
+  (** the empty shape (): a 0-d real array is one real variable, a 0-d complex array two; the
+      value rebuilt from SciPy's vector is again 0-d (shape [], not [1]) *)
+  Theorem rank0_real p a :
+    nvars (false, p, SPlain []) = 1 /\
+    rebuild (false, p, SPlain []) [a] = XR p (Plain (mkarr [] [rnd p a])) /\
+    flat_of (XR p (Plain (mkarr [] [a]))) = [a] /\
+    sig_of (rebuild (false, p, SPlain []) [a]) = (false, p, SPlain []).
+  Proof. repeat split; reflexivity. Qed.
+
+  Theorem rank0_complex p a b :
+    nvars (true, p, SPlain []) = 2 /\
+    rebuild (true, p, SPlain []) [a; b] = XC p (Plain (mkarr [] [(rnd p a, rnd p b)])) /\
+    flat_of (XC p (Plain (mkarr [] [(a, b)]))) = [a; b] /\
+    sig_of (rebuild (true, p, SPlain []) [a; b]) = (true, p, SPlain []).
+  Proof. repeat split; reflexivity. Qed.
+
   (** the function handed to SciPy is func o join o reshape (o astype); args untouched *)
   Theorem handed_function func x0 args m o :
     minimize func x0 args m o =
